@@ -27,6 +27,10 @@ pub trait Subject {
     fn finish(&mut self) {}
     /// called after the bookkeeping of every poll and every operation (set-view checks of groups)
     fn after_step(&mut self) {}
+    /// family-specific verdict on "Pending at quiescence" (None = use the generic one)
+    fn quiescent_verdict(&self) -> Option<Result<(), String>> {
+        None
+    }
 }
 
 #[derive(Clone, Copy, PartialEq, Eq, Debug)]
@@ -386,9 +390,14 @@ pub fn run(subj: Box<dyn Subject>) -> EndKind {
 
     // -------------------------------------------------------------------- quiescence
     if end_kind == EndKind::Quiescent {
+        let special = if with(|w| w.combs[0].last == Last::Pending) { subj.as_ref().unwrap().quiescent_verdict() } else { None };
         with(|w| {
             if w.combs[0].last == Last::Pending {
-                if let Err(m) = comb_pending_ok(w, 0) {
+                let verdict = match special {
+                    Some(v) => v,
+                    None => comb_pending_ok(w, 0),
+                };
+                if let Err(m) = verdict {
                     let nevers = w.children.iter().any(|r| r.spec.never);
                     w.violate(1, || m.clone());
                     w.violate(home, || m.clone());
